@@ -251,7 +251,7 @@ class Exec:
     def __init__(self, prog, inline=(), models=True, max_paths=MAX_PATHS, pure=None, unroll=1):
         self.prog = prog
         self.unroll = unroll
-        self.inline = set(inline)
+        self.inline = set(inline) | set(prog.auto_inline())
         self.models = models
         self.max_paths = max_paths
         self.npaths = 0
